@@ -501,7 +501,9 @@ def targets(ctx):
     @st.composite
     def cfg_strat(draw):
         ns = draw(st.integers(1, 2))
-        senders = [{"items": draw(st.integers(1, 3)), "mode": draw(st.sampled_from(["send", "send", "send", "send_from", "send_from_close"]))} for _ in range(ns)]
+        # (now and then a long run of items: what a receiver does every n-th time is only seen with n items)
+        senders = [{"items": draw(st.one_of(st.integers(1, 3), st.integers(1, 3), st.integers(1, 3), st.sampled_from([31, 32, 33, 40, 64, 70]))),
+                    "mode": draw(st.sampled_from(["send", "send", "send", "send_from", "send_from_close"]))} for _ in range(ns)]
         nr = draw(st.integers(1, 3))
         receivers = [{"mode": draw(st.sampled_from(["receive", "iter"]))} for _ in range(nr)]
         cfg = {"senders": senders, "receivers": receivers, "buffer": draw(st.sampled_from([0, 0, 1, 2])),
@@ -525,5 +527,5 @@ def targets(ctx):
         Target("rpc_request_channel_caller_cancelled", rpc_ev, strategy=rpc_strat, quick=12, thorough=300, time_quick=60),
         Target("all_schedules_small_configs", dfs_ev, cases=dfs_cases, exhaustive=True,
                rule="every schedule of each listed small configuration (DFS over the ready-queue choice tree)", time_quick=600, time_thorough=3000),
-        Target("random_schedules_larger_configs", rand_ev, strategy=cfg_strat(), quick=250, thorough=8000, time_quick=60),
+        Target("random_schedules_larger_configs", rand_ev, strategy=cfg_strat(), quick=1500, thorough=12000, time_quick=60),
     ]
